@@ -423,8 +423,9 @@ pub struct DrvCase {
 fn drv_strat(_: &Ctx) -> BoxedStrategy<DrvCase> {
     let pend = vec(prop_oneof![2 => Just(None), 2 => simops::single_strat().prop_map(Some)], 1..=3);
     let hostile = prop_oneof![
-        5 => (0u8..3, mutation()).prop_map(|(target, m)| Hostile::Mutated { target, m }),
-        4 => (0u8..3, proptest::sample::select(&[1u8, 4, 5, 7, 9, 11, 13, 15, 19, 24, 25, 0, 2, 3, 30][..]), any::<bool>()).prop_map(|(target, app, empty)| Hostile::WrongType { target, app, empty }),
+        // target 3 = message id 0 (an unsolicited notification), otherwise a pending operation
+        5 => (0u8..4, mutation()).prop_map(|(target, m)| Hostile::Mutated { target, m }),
+        5 => (0u8..4, proptest::sample::select(&[1u8, 4, 5, 7, 9, 11, 13, 15, 19, 24, 25, 0, 2, 3, 30][..]), any::<bool>()).prop_map(|(target, app, empty)| Hostile::WrongType { target, app, empty }),
         2 => proptest::sample::select(&["3000", "300102", "3003020101", "30050201016500", "30050201016100", "300502010161 7f", "30 0c 00 00 00 00 00 00 00 00 00 00 00 00", "0403616263", "3005020101a000"][..]).prop_map(|h| Hostile::Raw { hex: h.replace(' ', "") }),
     ];
     (pend, 0u8..3, hostile, any::<u64>()).prop_map(|(pending, warmup, hostile, sched)| DrvCase { pending, warmup, hostile, sched }).boxed()
@@ -514,16 +515,21 @@ fn run_driver(c: &DrvCase) -> SimResult<DrvOut> {
             Hostile::Raw { hex } => ber::unhex(hex),
             Hostile::Mutated { target, m } => {
                 let t = *target as usize % c.pending.len();
-                let id = ids[t].unwrap_or(1);
-                let resp = match c.pending[t] {
-                    Some(k) => Resp::result(k.resp_tag(), Res::ok("x")),
-                    None => Resp::result(5, Res::ok("x")),
+                let zero = *target == 3;
+                let id = if zero { 0 } else { ids[t].unwrap_or(1) };
+                let resp = if zero {
+                    Resp::Result { app: 24, res: Res::code(52, "notice of disconnection"), sasl: None, exop_name: Some("1.3.6.1.4.1.1466.20036".into()), exop_val: None }
+                } else {
+                    match c.pending[t] {
+                        Some(k) => Resp::result(k.resp_tag(), Res::ok("x")),
+                        None => Resp::result(5, Res::ok("x")),
+                    }
                 };
                 apply(&RespMsg { id, resp, ctrls: Some(vec![crate::model::RCtl { oid: "1.2.3".into(), crit: crate::model::CritForm::True, val: Some(vec![1, 2]) }]) }, m)
             }
             Hostile::WrongType { target, app, empty } => {
                 let t = *target as usize % c.pending.len();
-                let id = ids[t].unwrap_or(1);
+                let id = if *target == 3 { 0 } else { ids[t].unwrap_or(1) };
                 let body = if *empty { vec![] } else { vec![Tlv::enumerated(0), Tlv::octets(vec![]), Tlv::octets(vec![])] };
                 ber::encode(&Tlv::seq(vec![Tlv::int(id), Tlv::cons(1, *app, body)]))
             }
@@ -782,7 +788,7 @@ pub fn property() -> Property {
     Property {
         id: "C11",
         level: "exploration",
-        rule: "lanes: decoder (a valid response message of any kind with exactly one mutation from the catalogue of DESIGN.md Appendix D - element deleted/duplicated/swapped, tag class/number/P-C changed, primitive emptied, over-long INTEGER, extra envelope element incl. the AD-style [10] trailer, any one TLV length falsified by +-delta (truncated/inflated inner lengths), byte set, truncation, outer tag changed, 12 malformed control lists - plus random bytes behind a plausible outer header and raw random bytes; oracle under catch_unwind: never a panic; if the octets announced by the outer length are all present the decoder must not answer 'need more'; a delivered frame consumes exactly the outer frame; input that is definitely not an envelope is never delivered); driver (the same delivered while 1-3 operations are pending on the simulated connection, incl. every response type under a live single or search id, with and without elements; oracle: driver neither panics nor wedges (virtual watchdog), drive() returns, and for definite non-envelopes it returns an error that every pending operation observes); stack (child process, 2 MiB thread stack: frames with log-uniform 1..~250 000 nested constructed elements up to 1 MiB placed as envelope / protocolOp / controls; death by signal is the violation). Non-trivial: exactly one mutation away from a valid message, or random bytes starting with a plausible outer header; every driver and stack case. Distinct = hash of the bytes.",
+        rule: "lanes: decoder (a valid response message of any kind with exactly one mutation from the catalogue of DESIGN.md Appendix D - element deleted/duplicated/swapped, tag class/number/P-C changed, primitive emptied, over-long INTEGER, extra envelope element incl. the AD-style [10] trailer, any one TLV length falsified by +-delta (truncated/inflated inner lengths), byte set, truncation, outer tag changed, 12 malformed control lists - plus random bytes behind a plausible outer header and raw random bytes; oracle under catch_unwind: never a panic; if the octets announced by the outer length are all present the decoder must not answer 'need more'; a delivered frame consumes exactly the outer frame; input that is definitely not an envelope is never delivered); driver (the same delivered while 1-3 operations are pending on the simulated connection, incl. every response type under a live single or search id or under message id 0 (unsolicited notifications), with and without elements; oracle: driver neither panics nor wedges (virtual watchdog), drive() returns, and for definite non-envelopes it returns an error that every pending operation observes); stack (child process, 2 MiB thread stack: frames with log-uniform 1..~250 000 nested constructed elements up to 1 MiB placed as envelope / protocolOp / controls; death by signal is the violation). Non-trivial: exactly one mutation away from a valid message, or random bytes starting with a plausible outer header; every driver and stack case. Distinct = hash of the bytes.",
         assumptions: &[
             "harness classification of 'definitely not an envelope': outer TLV not a universal constructed SEQUENCE, fewer than two elements, first element not a 1-4 octet non-negative universal INTEGER, or inner lengths that overrun the outer frame",
             "a panic in the caller's task while converting a well-enveloped but ill-formed result is outside the statement (driver and envelope) and only labelled",
